@@ -574,8 +574,9 @@ def run_shard(ck, cases, idx):
             lines.append("(sql %d KQuerier %s %s %s %s)" % (cid, sx_hints(c["hints"]), sx_ctx(c["ctx"], t), sx_matchers(c.get("ms")),
                                                             sx_empty_table(c.get("ms"))))
         if c["kind"] == "prof" and t and c.get("err") not in ("parse", "unquote"):
-            lines.append("(prof %d %s %d %d %s %s)" % (cid, sx_str(t["prof_gin"]), c["ctx"]["from_ns"], c["ctx"]["to_ns"], sx_bool(c["ctx"]["cluster"]),
-                                                       sx_list(["(%s %s %s)" % (sx_str(x["n"]), OPS[x["op"]], sx_str(x["v"])) for x in c.get("sels") or []])))
+            lines.append("(prof %d %s %d %d %s %s %s)" % (cid, sx_str(t["prof_gin"]), c["ctx"]["from_ns"], c["ctx"]["to_ns"], sx_bool(c["ctx"]["cluster"]),
+                                                          sx_list(["(%s %s %s)" % (sx_str(x["n"]), OPS[x["op"]], sx_str(x["v"])) for x in c.get("sels") or []]),
+                                                          sx_empty_table(c.get("sels"))))
         if c["kind"] == "prof" and t and not c.get("err") and c.get("pdb"):
             try:
                 tree = sx_select(parse_sql(c["sql"]))
